@@ -84,6 +84,9 @@ Definition same_records (z1 z2 : zone) : Prop := forall k, recs_at z1 k = recs_a
    (each disjunct is one finding of known_findings.json) *)
 Definition has_empty_at (z : zone) (n : name) : bool :=
   existsb (fun e => name_eqb (fst (fst e)) n && is_nil (snd e)) z.
+Definition has_exempt_at (z : zone) (n : name) : bool :=
+  existsb (fun e => name_eqb (fst (fst e)) n && exempt (snd (fst e))) z.
+
 Definition Known_rr (origin : name) (z : zone) (u : rr) : bool :=
   apex_wipe origin u                                                     (* C12-apex-delete-all *)
   || soa_not_apex origin u                                               (* C12-soa-not-apex *)
@@ -97,4 +100,24 @@ Definition Known_rr (origin : name) (z : zone) (u : rr) : bool :=
       | (DSoa zs _, _) :: _, DSoa ns _ => negb (Bool.eqb (soa_newer ns zs) (serial_lt zs ns))
       | _, _ => false
       end)                                                               (* C12-serial-arith *)
-  || exempt (rtype u) || (rtype u =? tANAME).                            (* outside the model's universe *)
+  (* outside the universe of the correspondence check: DNSSEC / ANAME types *)
+  || exempt (rtype u) || (rtype u =? tANAME) || has_exempt_at z (rname u).
+
+(* the whole update section: no Update RR is in a known class for the zone it is applied to *)
+Fixpoint all_goodb (o : name) (z : zone) (us : list rr) : bool :=
+  match us with
+  | [] => true
+  | u :: us' => negb (Known_rr o z u) &&
+                match apply_rr o z u with Some (z', _) => all_goodb o z' us' | None => false end
+  end.
+
+(* every Update RR, applied to the zone as left by the RRs before it, does what RFC 2136
+   3.4.2.7 prescribes for that RR (and the loop does not bail out) *)
+Fixpoint steps_rfc (o : name) (z : zone) (us : list rr) : Prop :=
+  match us with
+  | [] => True
+  | u :: us' => match apply_rr o z u with
+                | Some (z', _) => same_records z' (rfc_rr o z u) /\ steps_rfc o z' us'
+                | None => False
+                end
+  end.
